@@ -157,7 +157,7 @@ Definition restore (snap : mout) (i : inst) : inst * res mout :=
 Section Step.
 (* [finally] selects the shape of reset_rules: with try/finally (the tree after
    the repair) or without (the generator as it was: restore only on normal exit) *)
-Variable finally : bool.
+Context (finally : bool).
 
 Fixpoint mstep (i : inst) (o : mop) {struct o} : inst * res mout :=
   match o with
